@@ -168,6 +168,8 @@ class Prop:
                 return ('A', [value(i, depth + 1) for _ in range(rng.randint(0, 2))])
             return obj(i, depth + 1, False)
 
+        used_pk = set()
+
         def obj(i, depth, top):
             objs = [j for j in names_after(i, lambda k: k == 'obj') if j % 2 == 0]
             strs = names_after(i, lambda k: k == 'str')
@@ -190,8 +192,9 @@ class Prop:
                         used_sk.add(sk)
                 # a plain key may look like a type name (it is quoted in the text): `"@t3": ...` is a property, not a shortcut
                 pk = ('@t%d' % rng.randint(1, 9)) if rng.random() < 0.15 else ('@k%d' % cnt[0]) if rng.random() < 0.05 else 'k%d' % cnt[0]
-                if pk in [q[1] for q in props]:
+                if pk in used_pk:           # once per project: an heir must not meet its own key again in what it inherits (402, C07's subject)
                     pk = 'k%d' % cnt[0]
+                used_pk.add(pk)
                 props.append((sk, pk, value(i, depth)))
             return ('O', allof, ap, props)
 
